@@ -102,7 +102,8 @@ impl DeclParser {
         //@rule n=* `self\.src\[([^\[\]]+?)\.\.([^\[\]]+?)\]` => `self.src_sl(\1, \2)`
         //@rule n=* `\.trim_matches\(matches_whitespace\)` => `.trim_ws()`
         // dialect: `RE_WS.split(X).map(|name| { BODY; (name, span) }).collect::<Vec<_>>()` as a loop over the pieces in order
-        //@rule n=1 `^(\s*)let start_states = RE_WS\n\s*\.split\(declaration_parameters\)\n\s*\.map\(\|name\| \{$` =>>
+        // (with `.filter(|name| !name.is_empty())`: the non-empty pieces)
+        //@rule n=1 `^(\s*)let start_states = RE_WS\n\s*\.split\(declaration_parameters\)\s*\.filter\(\|name\| !name\.is_empty\(\)\)\n\s*\.map\(\|name\| \{$` =>>
         let pieces_ = declaration_parameters.split_ws();
         let mut start_states: Vec<(Str, Span)> = Vec::new();
         let mut pk_: usize = 0;
